@@ -571,6 +571,19 @@ class Driver:
             return None
         val = "dn " + self.w.new_token()
         k = self.rng.random()
+        if self.rng.random() < 0.3:
+            # a client that writes all its settings back: a property set to the value it already has (not the one set last)
+            desc = {"calendar": X.P_CALDESC, "addressbook": X.P_ABDESC}.get(col.kind)
+            for want in (X.P_DISPLAYNAME, desc):
+                if len(col.props) < 2 and want is not None and want not in col.props:
+                    self.w.proppatch(col.path, sets=[(want, "v " + self.w.new_token())])
+            if len(col.props) < 2:
+                return [col.path]
+            self.w.full_audit([col.path])
+            prop = self.rng.choice(sorted(col.props))
+            self.w.proppatch(col.path, sets=[(prop, col.props[prop])], op="proppatch_same_value")
+            self.count("proppatch_same_value")
+            return [col.path]
         if k < 0.15 and X.P_DISPLAYNAME in col.props:
             self.w.proppatch(col.path, removes=[X.P_DISPLAYNAME])
         elif k < 0.5 and col.kind == "calendar":
